@@ -4,4 +4,4 @@ package mt
 // and block-handler properties are executed twice on the same symbolic inputs under independent symbolic map
 // orders and host-clock readings, in one process; both executions must end in the same stores and balances
 // (verifSelfCompose, harness/rt).
-func VerifC11_Self_C12_MT() { verifSelfCompose(VerifC12_MT) }
+func VerifC11_SelfT_C12_MT() { verifSelfCompose(VerifC12_MT) }
